@@ -157,6 +157,8 @@ pub struct World {
     pub app_leaf: HashMap<usize, u32>,
     pub written: HashMap<String, mls_rs::group::verif::VerifState>,
     pub joined_with: HashMap<String, Vec<u8>>,
+    /// storage ids of last-resort key packages (never deleted by a join)
+    pub last_resort: std::collections::HashSet<Vec<u8>>,
     pub bad_clients: HashMap<String, Client<Cfg>>,
     pub succ: Vec<SuccEntry>,
     /// signing key and identity of the external sender (observer), when the behaviour uses one
@@ -265,6 +267,7 @@ impl World {
             app_leaf: HashMap::new(),
             written: HashMap::new(),
             joined_with: HashMap::new(),
+            last_resort: Default::default(),
             bad_clients: HashMap::new(),
             succ: vec![],
             ext_signer: None,
